@@ -71,8 +71,8 @@ Section Top.
     assert (Hmk : forall B, exists is_str,
                  method_key c (JMap [(skey c st (sg_name s), B)]) = Ok (Some (sg_name s), is_str, B)).
     { intros B. unfold method_key, skey, msgpack, is_msgpack, key_bytes.
-      destruct (c_proto c); cbn [andb]; eauto.
-      destruct (st_key_bin st); [|eauto]. rewrite (utf8_bytes_dec _ Hsn). eauto. }
+      destruct (c_proto c); cbn [andb]; eauto;
+        (destruct (st_key_bin st); [|eauto]); rewrite (utf8_bytes_dec _ Hsn); eauto. }
     destruct (Hmk (sbody c (ext_universe U s) st (sg_params s) args)) as [is_str Hmk'].
     rewrite Hmk', Hfind. fold U'.
     change body_lookup_both_key_forms with true. cbn [negb]. rewrite andb_false_r.
